@@ -79,6 +79,23 @@ func cmdRun(args []string) int {
 		*entry, ex.Paths, ex.PathsWithOb, ex.Branches, ex.Steps, ex.Oblig, ex.Discharged, ex.Unknowns, time.Since(t1).Seconds())
 	fmt.Printf("queries=%d solver_s=%.1f\n", ex.Queries, ex.SolverTime.Seconds())
 	fmt.Printf("end reasons: %v\nreach: %v\n", ex.EndReasons, ex.Reach)
+	if *verbose {
+		type kv struct {
+			k string
+			v int
+		}
+		var l []kv
+		for k, v := range ex.ForkSites {
+			l = append(l, kv{k, v})
+		}
+		sort.Slice(l, func(i, j int) bool { return l[i].v > l[j].v })
+		for i, e := range l {
+			if i > 25 {
+				break
+			}
+			fmt.Printf("  fork %6d  %s\n", e.v, e.k)
+		}
+	}
 	if len(ex.Notes) > 0 {
 		fmt.Printf("notes: %v\n", ex.Notes)
 	}
